@@ -115,6 +115,24 @@ SameShape(PT, T, g, c, holes, tail) ==
             ELSE /\ Len(p.ch) = Len(n.ch)
                  /\ \A m \in 1..Len(p.ch) : SameShape(PT, T, p.ch[m], n.ch[m], holes, tail)
 
+\* the same relation without the leaf texts: the pattern has the structure of the code it was cut from
+RECURSIVE SameKinds(_, _, _, _, _, _)
+SameKinds(PT, T, g, c, holes, tail) ==
+    LET p == PT[g] n == T[c] IN
+    IF \E h \in holes : h.pid = g THEN \E h \in holes : h.pid = g /\ h.id = c
+    ELSE IF p.ty = "M" THEN FALSE
+    ELSE IF p.ty = "T" THEN n.ch = <<>> /\ p.kid = n.kid /\ p.nm = n.nm
+    ELSE /\ p.kid = n.kid
+         /\ IF tail.pid # 0 /\ \E k \in 1..Len(p.ch) : p.ch[k] = tail.pid
+            THEN LET k == CHOOSE k \in 1..Len(p.ch) : p.ch[k] = tail.pid
+                     r == Len(tail.ids) IN
+                 /\ Len(n.ch) = Len(p.ch) - 1 + r
+                 /\ tail.ids = SubSeq(n.ch, k, k + r - 1)
+                 /\ \A m \in 1..(k - 1) : SameKinds(PT, T, p.ch[m], n.ch[m], holes, tail)
+                 /\ \A m \in (k + 1)..Len(p.ch) : SameKinds(PT, T, p.ch[m], n.ch[m + r - 1], holes, tail)
+            ELSE /\ Len(p.ch) = Len(n.ch)
+                 /\ \A m \in 1..Len(p.ch) : SameKinds(PT, T, p.ch[m], n.ch[m], holes, tail)
+
 \* outcome `out` = [ok, single |-> name :> id, multi |-> name :> ids]
 CutOK(PT, T, holes, tail, out) ==
     /\ out.ok
